@@ -67,6 +67,9 @@ class FiniteEval:
                 except Exception:
                     raise self.err(n, 'subscript')
             raise self.err(n, f'unknown attribute path {txt}')
+        if isinstance(n, ast.Slice):
+            return slice(*[None if x is None else self.ev(x)
+                           for x in (n.lower, n.upper, n.step)])
         if isinstance(n, (ast.List, ast.Tuple)):
             return [self.ev(e) for e in n.elts]
         if isinstance(n, ast.Set):
